@@ -944,6 +944,7 @@ fn rec_event(c: &Cut, r: &Value, keys: &[Vec<u8>], gens: &GenTable, rk: &dyn Fn(
                 "memok": r.get("mem").and_then(|m| m.as_u64()) == r.get("memsum").and_then(|m| m.as_u64()),
                 "mem": r.get("mem").cloned().unwrap_or(json!(0)), "memsum": r.get("memsum").cloned().unwrap_or(json!(0)),
                 "at": keys.iter().enumerate().map(|(i, _)| r["recs"].get(i).and_then(|x| x["at"].as_u64()).unwrap_or(0)).collect::<Vec<_>>(),
+                "nb": keys.iter().enumerate().map(|(i, _)| r["recs"].get(i).and_then(|x| x["nb"].as_u64()).unwrap_or(0)).collect::<Vec<_>>(),
                 "free": r.get("free").cloned().unwrap_or(json!([]))}})
 }
 
@@ -1045,7 +1046,8 @@ fn store_report(store: &FeoxStore, keys: &[Vec<u8>]) -> Value {
                     Ok(v) => (L::hash64(&v), v.len()),
                     Err(_) => (0, usize::MAX >> 8),
                 };
-                json!({"p": true, "ts": r.timestamp, "exp": r.ttl_expiry, "vlen": vl, "vhash": vh, "at": r.sector})
+                let nb = L::encode_record(store.verif_format_version(), r.sector.max(16), k, &vec![0u8; r.value_len], 1, 0).len() / L::BLOCK;
+                json!({"p": true, "ts": r.timestamp, "exp": r.ttl_expiry, "vlen": vl, "vhash": vh, "at": r.sector, "nb": nb})
             }
             None => json!({"p": false}),
         }
